@@ -2,6 +2,9 @@
 
   c17_driver.py load <yaml> [<yaml> ...]   non-lazy MachineModel(path_to_yaml=...) for each path, in ONE process
                                            (a repeated path exercises the in-process cache); one JSON line per load
+  c17_driver.py inproc <steps.json> [<dir>:<dir>]   a list of steps in ONE process: ["analyse", arch, kernel] (the
+                                           command line entry points called in-process), ["load", yaml], ["load_arch", arch],
+                                           ["write", path, source-file] (edit a model file), ["chdir", dir]
   c17_driver.py cli <args...>              osaca.osaca.main() with the given argv
   c17_driver.py cli-noaccess <dir>:<dir> <args...>   the same with os.access(dir, W_OK) answering False for the
                                            listed directories (fallback when chattr +i is not available)
@@ -56,6 +59,50 @@ def main():
                                   "was_in_runtime_cache": in_rt}), flush=True)
             except BaseException as e:  # noqa
                 print(json.dumps({"path": p, "error": type(e).__name__ + ": " + str(e)[:200]}), flush=True)
+        return 0
+    if mode == "inproc":
+        # a script of steps executed in ONE process (the in-process cache lives across them)
+        import io
+        import shutil
+        steps = json.load(open(sys.argv[2]))
+        blocked = [os.path.realpath(d) for d in (sys.argv[3].split(":") if len(sys.argv) > 3 else []) if d]
+        if blocked:
+            real_access = os.access
+
+            def access(path, m, *a, **k):
+                if m & os.W_OK and os.path.realpath(str(path)) in blocked:
+                    return False
+                return real_access(path, m, *a, **k)
+            os.access = access
+        from osaca.semantics.hw_model import MachineModel
+        for st in steps:
+            try:
+                if st[0] == "analyse":
+                    from osaca import osaca as cli
+                    parser = cli.create_parser()
+                    args = parser.parse_args(["--arch", st[1], st[2]])
+                    cli.check_arguments(args, parser)
+                    out = io.StringIO()
+                    cli.run(args, output_file=out)
+                    args.file.close()
+                    print(json.dumps({"step": st[0], "report": out.getvalue()}), flush=True)
+                elif st[0] in ("load", "load_arch"):
+                    mm = MachineModel(path_to_yaml=st[1]) if st[0] == "load" else MachineModel(arch=st[1])
+                    print(json.dumps({"step": st[0], "fp": fingerprint(mm._data),
+                                      "iv": mm._data.get("internal_version")}), flush=True)
+                elif st[0] == "write":
+                    with open(st[2], "rb") as f:
+                        raw = f.read()
+                    with open(st[1], "wb") as f:
+                        f.write(raw)
+                    print(json.dumps({"step": st[0]}), flush=True)
+                elif st[0] == "chdir":
+                    os.chdir(st[1])
+                    print(json.dumps({"step": st[0]}), flush=True)
+                else:
+                    raise ValueError(st[0])
+            except BaseException as e:  # noqa
+                print(json.dumps({"step": st[0], "error": type(e).__name__ + ": " + str(e)[:200]}), flush=True)
         return 0
     if mode in ("cli", "cli-noaccess"):
         args = sys.argv[2:]
